@@ -4,6 +4,7 @@
 //! {"evaluations":N,"distinct_nontrivial":M,"violations":[..],"known":{id:example},"samples":[..],"counts":{..},"extra":{..}}
 
 mod out;
+mod c05;
 mod c11;
 mod c12;
 mod c13;
@@ -24,6 +25,7 @@ fn main() {
     let quick = tier != "thorough";
     if std::env::var("QE_NATIVE_PANIC_MSG").is_err() { std::panic::set_hook(Box::new(|_| {})); }
     let o = match sub {
+        "c05" => c05::run(quick, seed, &work),
         "c11" => c11::run(quick, seed, &work),
         "c12" => c12::run(quick, seed),
         "c13" => c13::run(quick, seed, &work),
